@@ -180,7 +180,7 @@ def run(ctx):
             def on_call(s2, fn, st, nid, callees, exts):
                 n = fn.nodes[nid]
                 bell, nu, conds, srv = st.user
-                if n.get("callee") == "xpoll_bell_reg_mod" and C.const_of(fn, n["args"][2]) == 1:
+                if n.get("callee") == "xpoll_bell_reg_mod" and S.truth(fn, st, n["args"][2]) == 1:
                     return (True, nu, conds, srv)
                 if n.get("callee") == "xcm_tp_socket_update" and fn is not P.fn("xcm_tp_socket_update"):
                     tgt = fn.show(n["args"][0])
@@ -289,7 +289,7 @@ def run(ctx):
                 if "SSL_has_pending" in exts:
                     return (cs, bell, rcv, True)
                 if n.get("callee") == "xpoll_bell_reg_mod":
-                    v = C.const_of(fn, n["args"][2])
+                    v = S.truth(fn, st, n["args"][2])
                     if v == 1:
                         return (cs, True, rcv, hp)
                     if v == 0 and proto == "btls" and cs == "conn_state_ready" and rcv is not False and not hp:
